@@ -39,6 +39,14 @@ def run_one(job, helper):
             node = ast.parse(job["src"]).body[0]
             ir = {"argparse": P.argparse_ast, "class": P.class_, "function": P.function}[job["from"]](node)
             out = kinds.to_source(job["to"], kinds.emit(job["to"], ir, {}))
+        elif job["kind"] == "hand_deco":
+            # the decorators of an emitted class come out in the order they were asked for
+            from doctrans import emit as E
+
+            ir = P.class_(ast.parse(job["src"]).body[0])
+            from doctrans.source_transformer import to_code
+
+            out = to_code(E.class_(ir, class_name="Out", decorator_list=["dataclass", "total_ordering", "final", "register"]))
         elif job["kind"] == "emit":
             ir = helper.py_ir(job["ir"])
             out = kinds.to_source(job["to"], kinds.emit(job["to"], ir, job.get("opts", {})))
